@@ -11,6 +11,7 @@ Case == [msg |-> msg, nmut |-> nmut, base |-> base,
          auth |-> Authentic(msg), verify |-> VerifyOK(msg),
          elauth |-> ELAuth(msg.events, msg.sacc.payload),
          elverify |-> ELVerifyOK(msg.events, msg.sacc.payload, msg.transported # "no"),
+         otherkey |-> OtherKeyOK(msg), flatten |-> FlattenOK(msg.events, msg.sacc.payload),
          prep |-> { PrepCase(t) : t \in Targets },
          ptm |-> { [c |-> c, g |-> gh[1], h |-> gh[2], ok |-> PrependToMsg(msg, c, gh[1], gh[2]).ok] : c \in Chains, gh \in { x \in (0..L) \X (0..L) : x[1] <= x[2] } }]
 EmitC == PrintT(<<"C", ToJson(Case)>>)
